@@ -81,8 +81,31 @@ NODEF_TEXT = "import os\n\nUNRELATED = 1\n"
 HELPER_TEXT = "def helper(a, z=3):\n    return a\n"
 
 
+TABLE_DOC = '"""\nModule notes\n\nname      value\nalpha         1\nbeta         22\n"""\n\n'
+LAYOUTS = ("unterminated", "ws_tail", "dunder_all", "name_string", "tabledoc")
+
+
+def apply_layout(kind, txt, layout, name=None):
+    """Textual surroundings a hand-written file may have (the definition itself is untouched)."""
+    defname = name or DEF_NAMES[kind]
+    if layout == "unterminated":  # last line without newline
+        return txt.rstrip("\n")
+    if layout == "ws_tail":  # last line holds only indentation
+        return txt + "    "
+    if layout == "dunder_all":  # the definition's name appears as a string before it
+        return '__all__ = ["%s"]\n\n' % defname + txt
+    if layout == "name_string":
+        return 'DEFAULT_TARGET = "%s"\n\n' % defname + txt
+    if layout == "tabledoc":  # module docstring with column-aligned text
+        return TABLE_DOC + txt
+    raise ValueError(layout)
+
+
 def prestate_text(kind, state, truth_version, name=None, method_of=None):
-    """Source text (or None = missing file) of a target pre-state."""
+    """Source text (or None = missing file) of a target pre-state.  ``<state>@<layout>`` adds surroundings."""
+    if "@" in state:
+        base, layout = state.split("@")
+        return apply_layout(kind, prestate_text(kind, base, truth_version, name, method_of), layout, name)
     if state == "missing":
         return None
     if state == "empty":
